@@ -197,6 +197,11 @@ func c11Retrieval(tier string, r *Rand, ids []int64, add func(in interface{})) {
 						}
 					}
 					hs = append(hs, 1<<55, -(1 << 55))
+					for _, d := range docs { // out-of-range hints sharing their low 56 bits with an indexed id
+						if inRange(d.ID, lim) {
+							hs = append(hs, d.ID+1<<56, d.ID-1<<56)
+						}
+					}
 					c.Ops = append(c.Ops, rOp{S: 0, Op: "hint", Hint: hs})
 				}
 				c.Ops = append(c.Ops, rOp{S: 0, Op: []string{"retrieve", "docs"}[i%2], A: q.A}, rOp{S: 0, Op: "raw"},
